@@ -76,6 +76,16 @@ fn main() {
         std::process::exit(replay_file(def.id, &parts, &path, true));
     }
 
+    // global watchdog: a wedged check ends as inconclusive instead of hanging
+    {
+        let id = def.id;
+        let limit = std::time::Duration::from_secs(if tier == Tier::Quick { 1200 } else { 12 * 3600 });
+        std::thread::spawn(move || {
+            std::thread::sleep(limit);
+            println!("INCONCLUSIVE property={id} global watchdog: the check did not finish within {limit:?}");
+            std::process::exit(2);
+        });
+    }
     let mut run = Run::new(def.id, tier, seed);
     run.rule = def.rule.to_string();
     run.assumptions = def.assumptions.iter().map(|s| s.to_string()).collect();
